@@ -683,6 +683,14 @@ impl<'m> MCTPSMBusContext<'m> {
                 // Vendor defined, we don't know what to do
                 Ok(((msg_type, payload), None))
             }
+            MessageType::SpdmOverMctp => {
+                // SPDM is handled by the caller, pass the payload on
+                Ok(((msg_type, payload), None))
+            }
+            MessageType::SecuredMessages => {
+                // Secured messages are handled by the caller, pass the payload on
+                Ok(((msg_type, payload), None))
+            }
             _ => Err((MessageType::Invalid, DecodeError::Unknown)),
         }
     }
